@@ -37,7 +37,10 @@ CONSTANTS
     HDR, MAC, GRPCBUF, MAXREC,
     Window,      \* GBN window: messages in flight per direction
     RelayCap,    \* packets the relay queue holds (model bound)
+    RetxDepth,   \* how many of the most recently delivered messages the sender may
+                 \* still retransmit (it has not seen their ACK yet); at most Window
     MaxWrites,   \* model bound (per direction)
+    MaxHs,       \* handshake acts per direction (model bound; 2 in XX, 1 in KK)
     MaxFaults,   \* relay faults (drops, breaks) before the relay behaves
     RelayMayDie, \* TRUE: the relay may stop for good
     LeakyPart    \* "none" = code; "hdr" / "body": that part is sent in clear
@@ -103,8 +106,11 @@ SendBody(d) ==
     /\ UNCHANGED <<up, writes, onRelay, stream, got, consumed, hdrSeen, plain, rd, seen, faults>>
 
 \* a Noise handshake act (before that side's first Write): one message
+HsCount(d) == Cardinality({i \in 1..Len(got[d]) : got[d][i].part = "hs"})
+              + Cardinality({i \in 1..Len(inflight[d]) : inflight[d][i].part = "hs"})
 HsSend(d, len) ==
     /\ up /\ wpc[d] = "idle" /\ writes[d] = <<>> /\ Len(inflight[d]) < Window
+    /\ HsCount(d) < MaxHs
     /\ inflight' = [inflight EXCEPT ![d] = Append(@,
            [w |-> 0, part |-> "hs", len |-> len, cls |-> "handshake"])]
     /\ UNCHANGED <<up, writes, wpc, onRelay, stream, got, consumed, hdrSeen, plain, rd, seen, faults>>
@@ -122,7 +128,8 @@ Transmit(d, i) ==
 
 \* ... or, not knowing yet that it arrived, a packet already delivered
 Retransmit(d, j) ==
-    /\ up /\ j \in 1..Len(got[d]) /\ stream[d] = "ok" /\ Len(onRelay[d]) < RelayCap
+    /\ up /\ j \in 1..Len(got[d]) /\ j > Len(got[d]) - RetxDepth
+    /\ stream[d] = "ok" /\ Len(onRelay[d]) < RelayCap
     /\ onRelay' = [onRelay EXCEPT ![d] = Append(@, got[d][j])]
     /\ seen' = seen \cup {got[d][j].cls}
     /\ UNCHANGED <<up, writes, wpc, inflight, stream, got, consumed, hdrSeen, plain, rd, faults>>
